@@ -64,6 +64,13 @@ func Catalogue() map[string]Script {
 		mk("c07:close-wakes-all", 4, 0, res(0, 1), res(1, 2), start(0), start(1), wok(0), cls, wok(1))
 		mk("c07:cancel-wakes-one", 4, 0, res(0, 1), res(1, 2), start(0), start(1), wok(0), wok(1), cancel(1))
 		mk("c07:silence-blocks", 4, 0, res(0, 1), start(0), wok(0))
+		exp := Action{K: AExpire}
+		mk("c07:silence-then-waiting-deadline", 4, 0, res(0, 1), res(1, 2), start(0), start(1), wok(0), wok(1), exp, res(2, 3))
+		mk("c07:idle-deadline-closes-idle-conn", 4, 0, res(0, 1), start(0), wok(0), reply(0, 100), exp, res(1, 1))
+		mk("c07:reply-then-silence", 4, 0, res(0, 1), res(1, 2), start(0), start(1), wok(0), wok(1), reply(0, 100), exp)
+		mk("c07:cancel-while-in-write", 4, 0, res(0, 1), start(0), cancel(0), wok(0))
+		mk("c07:close-while-in-write", 4, 0, res(0, 1), start(0), cls, wok(0))
+		mk("c07:reserve-after-faults", 2, 0, res(0, 1), start(0), werr(0), res(1, 1), res(2, 1))
 	}
 	return m
 }
@@ -87,14 +94,14 @@ func RandomNext(r *hx.RNG, focus string, maxSteps int) (Script, func(v *View) *A
 			var a Action
 			c := r.Intn(ncalls)
 			w := map[string][]int{
-				//       res wd start wend rel reply stray eof close cancel setq
-				"C01": {12, 1, 14, 14, 3, 30, 6, 1, 1, 3, 1},
-				"C02": {10, 1, 12, 16, 10, 18, 2, 6, 3, 6, 0},
-				"C09": {30, 8, 12, 10, 2, 12, 1, 2, 1, 6, 0},
-				"C07": {10, 1, 12, 14, 4, 8, 2, 8, 6, 8, 0},
+				//       res wd start wend rel reply stray eof close cancel setq expire
+				"C01": {12, 1, 14, 14, 3, 30, 6, 1, 1, 3, 1, 0},
+				"C02": {10, 1, 12, 16, 10, 18, 2, 6, 3, 6, 0, 1},
+				"C09": {30, 8, 12, 10, 2, 12, 1, 2, 1, 6, 0, 0},
+				"C07": {10, 1, 12, 14, 4, 8, 2, 5, 5, 8, 0, 6},
 			}[focus]
 			if w == nil {
-				w = []int{10, 2, 12, 12, 4, 16, 3, 3, 2, 5, 1}
+				w = []int{10, 2, 12, 12, 4, 16, 3, 3, 2, 5, 1, 1}
 			}
 			tot := 0
 			for _, x := range w {
@@ -137,9 +144,11 @@ func RandomNext(r *hx.RNG, focus string, maxSteps int) (Script, func(v *View) *A
 				a = Action{K: ACancel, C: c}
 			case 10:
 				a = Action{K: ASetQid, Wid: uint16(int(s.Nq0) + r.Range(-2, 4))}
+			case 11:
+				a = Action{K: AExpire}
 			}
 			// reserve picks the next unused call id; the others pick among existing ones
-			if a.K != AReserve && a.K != AFeedStray && a.K != AFeedErr && a.K != AClose && a.K != ASetQid {
+			if a.K != AReserve && a.K != AFeedStray && a.K != AFeedErr && a.K != AClose && a.K != ASetQid && a.K != AExpire {
 				if nextCall == 0 {
 					continue
 				}
